@@ -133,6 +133,7 @@ func escapeShapes(kind string) []shape {
 	add("\\u with a digit outside ASCII", G, bs, u, hex(0), cellSpec{kind: "W"}, hex(1), hex(2), G)
 	// pairs
 	add("\\u \\u (a surrogate pair, or two characters)", G, bs, u, hex(1), hex(0), hex(2), hex(0), bs, u, hex(2), hex(1), hex(0), hex(0), G)
+	add("\\u \\u \\u \\u (two surrogate pairs in a row, or a pair between two characters, or four characters)", G, bs, u, hex(1), hex(0), hex(2), hex(0), bs, u, hex(2), hex(1), hex(0), hex(0), bs, u, hex(0), hex(2), hex(1), hex(0), bs, u, hex(1), hex(1), hex(2), hex(0), G)
 	add("\\u \\u at the end", G, bs, u, hex(1), hex(0), hex(2), hex(0), bs, u, hex(2), hex(1), hex(0), hex(0))
 	add("\\u then \\ and not u", G, bs, u, hex(1), hex(0), hex(2), hex(0), bs, cellSpec{kind: "X", excl: "u", hi: 0x7f}, hex(2), hex(1), hex(0), hex(0), G)
 	add("\\u then a character that is not \\", G, bs, u, hex(1), hex(0), hex(2), hex(0), cellSpec{kind: "X", excl: "\\", hi: 0x7f}, u, hex(2), hex(1), hex(0), hex(0), G)
